@@ -2,14 +2,16 @@ import KoordVerif.Common.Proto
 import KoordVerif.Model.C04
 /-
 Driver for C04.  A case is one history on one PodGroupManager + fake framework handle.
-  pgadd  g min pol mode k g1..gk         onPodGroupAdd
-  pgupd  g min pol mode k g1..gk         onPodGroupUpdate
+  pgadd  g min pol mode shape k g1..gk   onPodGroupAdd      (shape of the groups annotation: 0 absent 1 "" 2 null
+  pgupd  g min pol mode shape k g1..gk   onPodGroupUpdate    3 [] 4 JSON list g1..gk 5 not JSON; k = 0 unless shape 4)
   pgdel  g                               onPodGroupDelete
-  podadd p g node 0 anno [minOK min pol mode k g1..gk]    onPodAdd    (anno=1: annotation way, config follows)
+  podadd p g node 0 anno [minOK min pol mode shape k g1..gk]    onPodAdd    (anno=1: annotation way, config follows)
   podupd p g node term anno [...]        onPodUpdate (term=1: terminated pod)
   poddel p g                             onPodDelete
   permit p g | unres p g | postbind p g | postfilter p g
   nogang k p                             entry point k on a pod without gang name (k=0 Permit -> verdict 3)
+  # ...                                  trace record of the concurrency stream (observed order of completed calls of two
+                                         racing goroutines; not a deterministic input): no model step, no output
 Output after every op: `out <verdict> a <n> pods.. r <n> pods..`, one `g …` line per cached gang
 (sorted by id, sets sorted), `fw <n> (pod gang)..`.
 -/
@@ -40,9 +42,10 @@ def dump (s : State) (o : Out) : List String :=
     ++ [s!"fw {fw.length}" ++ String.join (fw.map fun e => s!" {e.1} {e.2}")]
 
 def parseCfg : List Int → Option Cfg
-  | mn :: pol :: mode :: k :: rest =>
-    if rest.length = k.toNat ∧ 0 ≤ pol ∧ 0 ≤ mode ∧ 0 ≤ k ∧ rest.all (fun x => decide (0 ≤ x)) then
-      some { min := mn, policy := pol.toNat, mode := mode.toNat, group := rest.map Int.toNat }
+  | mn :: pol :: mode :: shape :: k :: rest =>
+    if rest.length = k.toNat ∧ 0 ≤ pol ∧ 0 ≤ mode ∧ 0 ≤ shape ∧ shape ≤ 5 ∧ 0 ≤ k ∧ (shape = 4 ∨ k = 0)
+        ∧ rest.all (fun x => decide (0 ≤ x)) then
+      some { min := mn, policy := pol.toNat, mode := mode.toNat, group := rest.map Int.toNat, gshape := shape.toNat }
     else none
   | _ => none
 
@@ -85,6 +88,7 @@ def parseOp (line : String) : Option Op :=
 def stepLine (st : State × List String) (line : String) : State × List String :=
   let (s, out) := st
   match toks line with
+  | "#" :: _ => (s, out)
   | ["nogang", k, _] =>
     -- util.IsPodNeedGang(pod) = false: Permit answers PodGroupNotSpecified (3), the others return at once
     (s, out ++ dump s { verdict := if k = "0" then 3 else 9 })
